@@ -141,6 +141,13 @@ Theorem C14_Join_64 : forall vs, words_ok vs -> Join vs 64 = Some vs.
 Proof. exact Join_64. Qed.
 Print Assumptions C14_Join_64.
 
+(** a packed array sliced at element boundaries is the packed sub-list *)
+Theorem C14_Join_Slice : forall vs w k m, width_ok w -> 0 <= k <= m -> m <= zlen vs ->
+  exists R, Join vs w = Some R /\
+    Slice R (k * w) (m * w) = Join (firstn (Z.to_nat (m - k)) (skipn (Z.to_nat k) vs)) w.
+Proof. exact Join_Slice. Qed.
+Print Assumptions C14_Join_Slice.
+
 (** counting and searching inside a slice = counting and searching inside the range of the original
     (C14 composed with C01 Rank64 and C13 NextOne / PrevOne): for [r = Slice ws a b] and [0 <= j < b-a],
     Rank64 of [r] at [j] = (1-bits of [ws] in [a, a+j), bit [a+j] of [ws]); NextOne / PrevOne of [r] over
@@ -248,7 +255,9 @@ Example C14_laws_nonvacuous :
   Slice [0xa5; 2^63 + 7] 2 127 = Some [2^63 + 2^62 + 0x29; 1] /\
   Slice [2^63 + 2^62 + 0x29; 1] 3 70 = Slice [0xa5; 2^63 + 7] 5 72 /\
   Slice [0xa5; 2^63 + 7] 5 72 = Some [2^61 + 2^60 + 2^59 + 5; 0] /\
-  Join [0xa5; 2^64 - 1] 64 = Some [0xa5; 2^64 - 1].
+  Join [0xa5; 2^64 - 1] 64 = Some [0xa5; 2^64 - 1] /\
+  Join [1; 2; 3; 4; 5] 16 = Some [0x4000300020001; 5] /\ Slice [0x4000300020001; 5] 32 80 = Some [0x500040003] /\
+  Join [3; 4; 5] 16 = Some [0x500040003].
 Proof. vm_compute. intuition congruence. Qed.
 
 Example C14_compose_nonvacuous :
